@@ -57,6 +57,14 @@ def build(v):
     t = v["t"]
     if t == "callobj":
         return Fn(v["tag"], build(v["ret"]))
+    if t == "bool":
+        return v["v"]
+    if t == "bytes":
+        return bytes.fromhex(v["v"])
+    if t == "tuple":
+        return tuple(build(x) for x in v["v"])
+    if t == "idict":          # dict with non-string keys, as [key, value] pairs
+        return {k: build(x) for k, x in v["v"]}
     if t in ("int", "str"):
         return v["v"]
     if t == "float":
@@ -294,6 +302,21 @@ VALUES = {
     # callables with a deterministic text of their own: usable both called and uncalled
     "c": {"t": "callobj", "tag": "c", "ret": {"t": "int", "v": 41}},
     "total": {"t": "callobj", "tag": "total", "ret": {"t": "str", "v": "sum"}},
+    # bytes (valid UTF-8, ASCII and not) at top level, in containers, as attribute, returned by a call
+    "line": {"t": "bytes", "v": b"NICK alice".hex()}, "cafe": {"t": "bytes", "v": "café".encode().hex()},
+    "hd": {"t": "dict", "v": {"host": {"t": "bytes", "v": b"example.org".hex()}}},
+    "chunks": {"t": "list", "v": [{"t": "bytes", "v": b"ab\n".hex()}, {"t": "bytes", "v": "é".encode().hex()}]},
+    "frame": _o("frame", payload={"t": "bytes", "v": b"PING :x".hex()}),
+    "rd": {"t": "fn", "ret": {"t": "bytes", "v": b"read data".hex()}},
+    # plain JSON-native data with the two things JSON cannot keep: tuples and non-string keys
+    "flag": {"t": "bool", "v": True},
+    "addr": {"t": "tuple", "v": [{"t": "str", "v": "192.0.2.1"}, {"t": "int", "v": 4321}]},
+    "routes": {"t": "list", "v": [{"t": "tuple", "v": [{"t": "str", "v": "a"}, {"t": "int", "v": 1}]},
+                                  {"t": "tuple", "v": []}]},
+    "info": {"t": "dict", "v": {"version": {"t": "tuple", "v": [{"t": "int", "v": 24}, {"t": "int", "v": 3}]},
+                                "name": {"t": "str", "v": "tw"}}},
+    "counts": {"t": "idict", "v": [[200, {"t": "int", "v": 17}], [404, {"t": "int", "v": 2}]]},
+    "nest": {"t": "dict", "v": {"by": {"t": "idict", "v": [[1, {"t": "str", "v": "one"}]]}}},
     # containers of objects with methods
     "ps": {"t": "list", "v": [_o("p0"), _o("p1", p=_o("p1inner"))]},
     "pd": {"t": "dict", "v": {"k": _o("pk"), "db": _o("pdb", kids={"t": "list", "v": [_o("pdbkid")]})}},
@@ -302,7 +325,14 @@ NAMES = ["x", "y", "z", "n", "l", "l[1]", "l[0]", "d", "d[k]", "d[n]", "o", "o.a
          "o[3]", "o.p.m()", "f()", "g()", "g().a", "x.real", "y.upper()",
          "c", "c()", "total", "total()", "o.m", "o.p.m",
          "ps[0].m()", "ps[1].p.m()", "ps[1].m", "pd[k].m()", "pd[db].m()", "pd[db].kids[0].m()", "o.kids[1].m()",
-         "o.kids[1].p.m()", "o.reg[k].m()", "o.reg[n].m", "ps[0]", "pd[db]", "o.kids[0]"]
+         "o.kids[1].p.m()", "o.reg[k].m()", "o.reg[n].m", "ps[0]", "pd[db]", "o.kids[0]",
+         "line", "cafe", "hd[host]", "hd", "chunks[0]", "chunks[1]", "chunks", "frame.payload", "rd()",
+         "flag", "addr", "addr[1]", "addr[0]", "routes", "routes[0]", "routes[0][1]", "info[version]", "info",
+         "info[version][0]", "counts", "counts[404]", "counts[200]", "nest[by]", "nest[by][1]", "nest"]
+# fields over JSON-native data only (str/int/float/bool/None/list/tuple/dict): an event made of these alone
+PLAIN = ["x", "y", "z", "n", "w", "l", "l[1]", "l[0]", "d", "d[k]", "d[n]", "flag", "addr", "addr[1]", "addr[0]", "routes",
+         "routes[0]", "routes[0][1]", "info[version]", "info", "info[version][0]", "counts", "counts[404]", "counts[200]",
+         "nest[by]", "nest[by][1]", "nest"]
 # field names that make sense both called and uncalled (deterministic either way)
 CALLABLE = ["c", "total", "o.m", "o.p.m", "ps[1].m", "ps[0].m", "pd[k].m", "pd[db].m", "o.kids[1].m", "o.reg[n].m",
             "pd[db].kids[0].m"]
@@ -310,9 +340,23 @@ SPECS = ["", "", "", "", ">6", "<4", "^9", "8", "05d", ".2f", "{w}", ">{w}", "s"
 LITS = ["", "", "a", " text ", "{", "}", "{}", "é中", ":", "!", "/2", "\n"]
 
 
+def _roots(items):
+    import re
+    out = set()
+    for it in items:
+        if it.get("name") is not None:
+            out.add(re.match(r"[^.\[\]()]+", it["name"]).group(0))
+            for m in re.findall(r"\{([^.\[\]()}!:]+)", it.get("spec") or ""):
+                out.add(m)
+    return out
+
+
 def rand_case(rng, faithful_only=False):
     items = []
     both = rng.choice(CALLABLE) if rng.random() < 0.35 else None    # one field used called AND uncalled
+    plain = rng.random() < 0.3                                      # event of JSON-native values only
+    if plain:
+        both = None
     for _ in range(rng.randrange(1, 7)):
         it = {"lit": rng.choice(LITS)}
         if rng.random() < 0.85:
@@ -320,7 +364,7 @@ def rand_case(rng, faithful_only=False):
             if both is not None and k < 0.55:
                 it["name"] = both + rng.choice(["", "()"])
             elif k < 0.85 or not items:
-                it["name"] = rng.choice(NAMES)
+                it["name"] = rng.choice(PLAIN if plain else NAMES)
             else:
                 prev = next((i["name"] for i in items if i.get("name")), "x")      # repeat an earlier field ...
                 it["name"] = prev
@@ -335,8 +379,9 @@ def rand_case(rng, faithful_only=False):
         else:
             it["name"] = None
         items.append(it)
-    vals = {k: v for k, v in VALUES.items()}
-    if rng.random() < 0.3:
+    # the event carries only the values its fields use (an event of plain data stays JSON-native)
+    vals = {k: v for k, v in VALUES.items() if k in _roots(items)}
+    if rng.random() < 0.3 and "x" in vals:
         vals["x"] = rng.choice([{"t": "int", "v": rng.randrange(-10 ** 6, 10 ** 12)}, {"t": "str", "v": "x\"q'"},
                                 {"t": "float", "v": "1e300"}, {"t": "list", "v": []}])
     return {"items": items, "values": vals}
@@ -355,6 +400,16 @@ def corpus():
         {"items": [I("", "y", "a", "")], "values": VALUES},
         {"items": [I("", "x", "", "{w}")], "values": VALUES},
         {"items": [I("", "g().a")], "values": VALUES},
+        # bytes (str(bytes) is the b'..' form) and JSON-native events with tuples / non-string keys
+        {"items": [I("", "line"), I(" ", "line", "s"), I(" ", "cafe")], "values": {k: VALUES[k] for k in ("line", "cafe")}},
+        {"items": [I("", "frame.payload"), I(" ", "hd[host]"), I(" ", "chunks[0]"), I(" ", "rd()")],
+         "values": {k: VALUES[k] for k in ("frame", "hd", "chunks", "rd")}},
+        {"items": [I("connection from ", "addr")], "values": {"addr": VALUES["addr"]}},
+        {"items": [I("", "addr", "r"), I(" port ", "addr[1]")], "values": {"addr": VALUES["addr"]}},
+        {"items": [I("routes ", "routes"), I(" v ", "info[version]")], "values": {k: VALUES[k] for k in ("routes", "info")}},
+        {"items": [I("responses ", "counts")], "values": {"counts": VALUES["counts"]}},
+        {"items": [I("not found: ", "counts[404]"), I(" ", "nest[by][1]")],
+         "values": {k: VALUES[k] for k in ("counts", "nest")}},
         {"items": [I("calling ", "total", "r"), I(" gave ", "total()")], "values": VALUES},
         {"items": [I("", "total()"), I(" came out of ", "total")], "values": VALUES},
         {"items": [I("", "o.m"), I(" ", "o.m()", "r"), I(" ", "o.m", "r")], "values": VALUES},
@@ -375,7 +430,11 @@ def shrink(case):
         if it.get("lit"):
             yield dict(case, items=items[:i] + [dict(it, lit="")] + items[i + 1:])
         if it.get("name") and it["name"] != "x":
-            yield dict(case, items=items[:i] + [dict(it, name="x")] + items[i + 1:])
+            yield dict(case, items=items[:i] + [dict(it, name="x")] + items[i + 1:],
+                       values=dict(case["values"], x=VALUES["x"]))
+    for k in list(case["values"]):
+        if k not in _roots(items):
+            yield dict(case, values={a: b for a, b in case["values"].items() if a != k})
 
 
 def hist(case, obs):
@@ -401,7 +460,10 @@ SPEC = Spec(
     rule="1-6 items per format string: literals (incl. doubled braces, non-ASCII, ':', '!', '/2'), fields over nested "
          "values (keys, attributes, [int] / [str] indices in any mix before a trailing call, call syntax, calls returning "
          "objects, callable objects and bound methods used BOTH called and uncalled in one format string with "
-         "different conversions, containers of objects with methods), conversions none/s/r/a, specs "
+         "different conversions, containers of objects with methods; bytes values (ASCII and non-ASCII UTF-8) at top "
+         "level / attribute / index / returned by a call; tuples at any depth and dicts with int keys, whole and "
+         "indexed; 30% of events made of JSON-native values only, each event carrying only the values its fields "
+         "use), conversions none/s/r/a, specs "
          "(alignment, width, precision, type, nested {w}); repeated fields to exercise the occurrence numbering; 60% "
          "of cases restricted to the faithful fragment (empty spec, no !a).  non-trivial = the original formats and "
          "there is at least one field",
